@@ -111,6 +111,7 @@ def run_unit(name, twin=False, seed=0, rlimit=None, extra_args=()):
         # locate function and clause
         fn = None
         clause = None
+        clause_prio = 9
         locus_src = None
         for s in spans:
             l = s.get("line_start", 0)
@@ -118,8 +119,10 @@ def run_unit(name, twin=False, seed=0, rlimit=None, extra_args=()):
             if f and fn is None:
                 fn = f
             meta = unit.out.meta[l - 1] if 0 < l <= len(unit.out.meta) else None
-            if meta and meta[0] == "clause" and clause is None:
-                clause = meta
+            if meta and meta[0] == "clause":
+                prio = {"ensures": 0, "requires": 0, "invariant": 1, "decreases": 2, "ghost": 3}.get(meta[2], 4)
+                if clause is None or prio < clause_prio:
+                    clause, clause_prio = meta, prio
         for s in prim + spans:
             l = s.get("line_start", 0)
             meta = unit.out.meta[l - 1] if 0 < l <= len(unit.out.meta) else None
